@@ -3352,6 +3352,11 @@ class Session(object):
 
             previous = self._pools.get(host)
             with self._lock:
+                if self.is_shutdown:
+                    # the session was shut down while this pool was connecting:
+                    # nobody would ever close it, and it must not serve requests
+                    new_pool.shutdown()
+                    return False
                 while new_pool._keyspace != self.keyspace:
                     self._lock.release()
                     set_keyspace_event = Event()
